@@ -1,4 +1,5 @@
 import OmplModel.Model.ConstrainedAtlas
+import OmplModel.Model.AtlasChart
 import OmplModel.Driver.Constrained
 /-!
 Driver ops for the atlas-based spaces (`ageo`, `tgeo`, `tinterp`, `asu`, `asn`); every other op is
@@ -108,10 +109,51 @@ def atlasOracle (n : Nat) : AtlasOracle ASt Vec Vec Chart Float where
     | _ => { evs := [], miss := true }
   origin c := c.2
 
+/-- Eigen's `redux` of a sum over a dynamic-size expression (SSE2 packets of 2 doubles, two packet
+accumulators, `alignedStart = 0` for the coefficient-wise product / `abs2` expressions that `dot`
+and `squaredNorm` reduce): the order in which `v.dot(u)` adds its terms. -/
+def eigenSum (t : Array Float) : Float := Id.run do
+  let n := t.size
+  if n == 0 then return 0.0
+  let alignedSize := (n / 2) * 2
+  let alignedSize2 := (n / 4) * 4
+  if alignedSize == 0 then
+    let mut res := t[0]!
+    for i in [1:n] do res := res + t[i]!
+    return res
+  let mut p00 := t[0]!
+  let mut p01 := t[1]!
+  if alignedSize > 2 then
+    let mut p10 := t[2]!
+    let mut p11 := t[3]!
+    let mut idx := 4
+    while idx < alignedSize2 do
+      p00 := p00 + t[idx]!
+      p01 := p01 + t[idx + 1]!
+      p10 := p10 + t[idx + 2]!
+      p11 := p11 + t[idx + 3]!
+      idx := idx + 4
+    p00 := p00 + p10
+    p01 := p01 + p11
+    if alignedSize > alignedSize2 then
+      p00 := p00 + t[alignedSize2]!
+      p01 := p01 + t[alignedSize2 + 1]!
+  let mut res := p00 + p01
+  for i in [alignedSize:n] do res := res + t[i]!
+  return res
+
+def vecOpsF : VecOps Float Vec where
+  dot a b := eigenSum ((Array.range a.size).map (fun i => a[i]! * b[i]!))
+  smul c u := u.map (fun x => c * x)
+
+def chartArithF : ChartArith Float :=
+  { arithF with sqrt := Float.sqrt, neg := fun x => -x, c105 := 1.05, half := 0.5, twentieth := 1.0 / 20, two := 2.0 }
+
 structure StA where
   base : St
   k : Nat
   AP : AtlasParams Float
+  M : AtlasM Float Vec := {}
 
 def initA (ts : List String) : Option StA := do
   let b ← init ts
@@ -120,7 +162,7 @@ def initA (ts : List String) : Option StA := do
     let k := ((kvGet rest "k").bind String.toNat?).getD 0
     let g (key : String) (d : Float) : Float := ((kvGet rest key).bind parseFloatBits?).getD d
     let maxc := ((kvGet rest "maxc").bind String.toNat?).getD 200
-    some ⟨b, k, ⟨b.P.delta, b.P.lambda, g "eps" 0.05, g "cosa" 0.0, g "backoff" 0.75, maxc⟩⟩
+    some ⟨b, k, ⟨b.P.delta, b.P.lambda, g "eps" 0.05, g "cosa" 0.0, g "backoff" 0.75, maxc⟩, {}⟩
   | [] => none
 
 partial def parseAEvs (n k : Nat) (ts : List String) (acc : Array AEv) : Option (List AEv) :=
@@ -238,10 +280,61 @@ def stepA (st : StA) (ts : List String) : StA × String :=
         | none => pure "s= none"
       | [] => none
     | _ => none
+  let showH (h : Halfspace Float Vec) : String := showVec h.u ++ " " ++ floatBits h.usq ++ " " ++ floatBits h.rhs
+  let chartOp : Option (StA × String) :=
+    match ts with
+    | ["nch", cid, radius] => do
+      let cid ← cid.toNat?
+      let radius ← parseFloatBits? radius
+      pure ({ st with M := st.M.newChart cid radius }, "ok")
+    | "gh" :: c1 :: c2 :: rest => do
+      let c1 ← c1.toNat?
+      let c2 ← c2.toNat?
+      let (w12, rest) ← takeVec st.k rest
+      let (w21, rest) ← takeVec st.k rest
+      if !rest.isEmpty then none
+      let M := st.M.generateHalfspace chartArithF vecOpsF c1 c2 w12 w21
+      let n1 := ((M.chart? c1).map (·.polytope.length)).getD 0
+      let n2 := ((M.chart? c2).map (·.polytope.length)).getD 0
+      match M.hs[M.hs.size - 2]?, M.hs[M.hs.size - 1]? with
+      | some h1, some h2 =>
+        let cp := h1.compl == M.hs.size - 1 && h2.compl == M.hs.size - 2 && h1.owner == c1 && h2.owner == c2
+        pure ({ st with M := M }, s!"cp={b01 cp} n1={n1} n2={n2} " ++ showH h1 ++ " " ++ showH h2)
+      | _, _ => none
+    | "ipk" :: cid :: rest => do
+      let cid ← cid.toNat?
+      let (u, rest) ← takeVec st.k rest
+      if !rest.isEmpty then none
+      match st.M.inPolytope chartArithF vecOpsF cid u with
+      | some b => pure (st, s!"ret={b01 b}")
+      | none => pure (st, "ret=none")
+    | "bck" :: cid :: rest => do
+      let cid ← cid.toNat?
+      let (v, rest) ← takeVec st.k rest
+      match rest with
+      | nh :: rest => do
+        let nh ← nh.toNat?
+        let (vps, rest) ← takeVecs st.k nh rest
+        if !rest.isEmpty then none
+        let M := st.M.borderCheck chartArithF vecOpsF cid v vps
+        let out := match M.polytope? cid with
+          | some hs => joinSp (hs.map (fun h => match M.hs[h.compl]? with | some c => showH c | none => "none"))
+          | none => "none"
+        let changed := (List.range M.hs.size).filter (fun i =>
+          match st.M.hs[i]?, M.hs[i]? with
+          | some a, some b => a.usq.toBits != b.usq.toBits
+          | _, _ => true)
+        pure ({ st with M := M }, s!"x={changed.length} nh={((M.chart? cid).map (·.polytope.length)).getD 0} " ++ out)
+      | [] => none
+    | _ => none
+  match chartOp with
+  | some r => r
+  | none =>
   match r with
   | some out => (st, out)
   | none =>
     match ts with
+    | "nch" :: _ | "gh" :: _ | "ipk" :: _ | "bck" :: _ => (st, "bad-op")
     | "ageo" :: _ | "tgeo" :: _ | "tinterp" :: _ | "asu" :: _ | "asn" :: _ => (st, "bad-op")
     | _ => (st, (step st.base ts).2)
 
